@@ -15,6 +15,7 @@ import (
 
 	"golang.org/x/sys/unix"
 
+	"github.com/dgraph-io/badger/v4/verifhook"
 	"github.com/dgraph-io/badger/v4/y"
 )
 
@@ -101,6 +102,7 @@ func syncDir(dir string) error {
 
 	err = f.Sync()
 	closeErr := f.Close()
+	verifhook.FS("syncdir", dir, 0, 0)
 	if err != nil {
 		return y.Wrapf(err, "While syncing directory: %s.", dir)
 	}
